@@ -16,7 +16,7 @@ pub fn prop() -> Prop {
         max_len: 600,
         quick: 250_000,
         thorough: 3_000_000,
-        rule: "choice sequence -> envelope over the typed leaf zoo (ints at every width boundary, negatives to -2^64, f32/f64 incl. reducible, subnormal, inf, NaN, NFC text, byte strings, bool/null, arrays, maps, tagged, dates, digests, embedded envelopes) and all obscuration patterns, built by route A (typed constructors); oracle: decode(encode(e)) is Ok, position-wise equal to the original as read through case() (case, digest, leaf bytes, compressed blob, ciphertext bytes), is_identical_to, re-encodes to the same bytes; the bytes equal the harness encoder's prediction for the generated spec; same through tagged_cbor -> try_from_cbor, UR string and untagged CBOR. non-trivial: >=2 distinct leaf types or >=1 obscured element; distinct by FNV-64 of the encoding",
+        rule: "choice sequence -> envelope over the typed leaf zoo (ints at every width boundary, negatives to -2^64, f32/f64 incl. reducible, subnormal, inf, NaN, NFC text, byte strings, bool/null, arrays, maps, tagged, dates, digests, embedded envelopes) and all obscuration patterns, built by route A (typed constructors); oracle: decode(encode(e)) is Ok, position-wise equal to the original as read through case() (case, digest, leaf bytes, compressed blob, ciphertext bytes), is_identical_to, re-encodes to the same bytes; the bytes equal the harness encoder's prediction for the generated spec; same through tagged_cbor -> try_from_cbor, UR string and untagged CBOR. non-trivial: >=2 distinct leaf types or >=1 obscured element; distinct by FNV-64 of the encoding; 1 case in 18 repeats the round trip after 320 refused decodes on the same thread",
         assumptions: &["bc-ur bytewords codec is correct (UR route)", "ciphertext nonces of library-made encryptions are random; their bytes are compared between original and decoded copy, not predicted"],
         extra: None,
     }
